@@ -94,19 +94,20 @@ type GhostField struct {
 }
 
 type TypeContract struct {
-	Pkg       string
-	Name      string
-	Immutable map[string]bool
-	Stable    map[string]bool // fields assumed untouched by arbitrary callees (ownership assumption), no write check
-	Guarded   map[string]string // field -> mutex field
-	Ghost     map[string]*GhostField
-	LockInv   map[string][]*LockInv // mutex field -> invariants
-	Guards    map[string][]string // mutex field -> foreign locations (T.f, pkg.T.f, elems(T)) it also protects
-	Protects  map[string]string // field -> mutex: the (externally synchronised) object the field points to is protected by mu
-	Sinks     map[string]string // field -> mutex ("" = none declared): shared sinks written by concurrent requests
-	ExtSync   bool
-	Mutators  map[string]bool // methods that mutate an extsync object
-	SetupOnly map[string]bool // methods that are set-up calls (may write immutable fields)
+	Pkg        string
+	Name       string
+	Immutable  map[string]bool
+	Stable     map[string]bool   // fields assumed untouched by arbitrary callees (ownership assumption), no write check
+	Guarded    map[string]string // field -> mutex field
+	Ghost      map[string]*GhostField
+	LockInv    map[string][]*LockInv // mutex field -> invariants
+	Guards     map[string][]string   // mutex field -> foreign locations (T.f, pkg.T.f, elems(T)) it also protects
+	Protects   map[string]string     // field -> mutex: the (externally synchronised) object the field points to is protected by mu
+	Sinks      map[string]string     // field -> mutex ("" = none declared): shared sinks written by concurrent requests
+	ExtSync    bool
+	Mutators   map[string]bool // methods that mutate an extsync object
+	SetupOnly  map[string]bool // methods that are set-up calls (may write immutable fields)
+	InsertOnly map[string]bool // map fields: entries are only ever added
 }
 
 type LockInv struct {
@@ -131,22 +132,22 @@ type PredDef struct {
 }
 
 type Contracts struct {
-	Funcs   map[string]*FuncContract // key: pkgpath + "." + Name
-	Types   map[string]*TypeContract // key: pkgpath + "." + Name
-	Specs   map[string]*SpecFunc     // key: Name (global namespace)
-	Preds   map[string]*PredDef
-	Axioms  map[string][]*Clause // per package
-	Lemmas  map[string][]*Clause
-	Theorems map[string][]*Clause // proved on their own (pure arithmetic), never assumed anywhere: bridge lemmas
-	GlobalInv map[string][]*Clause // pkgpath.name -> invariants
-	StableKeys [][2]string // (pkg, descriptor): heap locations never written after construction (kept across arbitrary calls)
-	Ifaces  map[string]*FuncContract // key: pkg.I.Method
-	Externs map[string]*FuncContract // key: ssa function String(), e.g. (*net/http.Request).Cookie
-	Files   []string
-	Nclause int
+	Funcs      map[string]*FuncContract // key: pkgpath + "." + Name
+	Types      map[string]*TypeContract // key: pkgpath + "." + Name
+	Specs      map[string]*SpecFunc     // key: Name (global namespace)
+	Preds      map[string]*PredDef
+	Axioms     map[string][]*Clause // per package
+	Lemmas     map[string][]*Clause
+	Theorems   map[string][]*Clause     // proved on their own (pure arithmetic), never assumed anywhere: bridge lemmas
+	GlobalInv  map[string][]*Clause     // pkgpath.name -> invariants
+	StableKeys [][2]string              // (pkg, descriptor): heap locations never written after construction (kept across arbitrary calls)
+	Ifaces     map[string]*FuncContract // key: pkg.I.Method
+	Externs    map[string]*FuncContract // key: ssa function String(), e.g. (*net/http.Request).Cookie
+	Files      []string
+	Nclause    int
 }
 
-var keywordRe = regexp.MustCompile(`^(spec|pred|axiom|lemma|theorem|globalinv|stablekeys|type|func|iface|functype|extern|props|atomic|holds_read|holds|at_call|after_call|requires|ensures|ensures_panic|ghost_ensures|modifies|loop|assume|nopanic|maypanic|trusted|pure|readsclock|noaxioms|onlyaxioms|wiring|params|immutable|stable|guards|sink|protects|guarded_by|ghost|lockinv|extsync|mutators|setup|strings|noinline)\b`)
+var keywordRe = regexp.MustCompile(`^(spec|pred|axiom|lemma|theorem|globalinv|stablekeys|type|func|iface|functype|extern|props|atomic|holds_read|holds|at_call|after_call|requires|ensures|ensures_panic|ghost_ensures|modifies|loop|assume|nopanic|maypanic|trusted|pure|readsclock|noaxioms|onlyaxioms|wiring|params|immutable|stable|guards|sink|protects|guarded_by|ghost|lockinv|extsync|mutators|insert_only|setup|strings|noinline)\b`)
 
 var labelRe = regexp.MustCompile(`^([A-Za-z_][A-Za-z_0-9]*):([^:]|$)`)
 var propsRe = regexp.MustCompile(`^\{([A-Z0-9, ]+)\}\s*`)
@@ -405,6 +406,18 @@ func (cs *Contracts) LoadContractFile(path, pkg string) error {
 			}
 			for _, f := range strings.Fields(strings.ReplaceAll(rest, ",", " ")) {
 				curT.Mutators[f] = true
+			}
+		case "insert_only":
+			// map fields whose entries are never replaced or deleted while the object is shared (a replaced counter
+			// loses the updates made to the old one)
+			if curT == nil {
+				return fail(l, "insert_only outside type")
+			}
+			if curT.InsertOnly == nil {
+				curT.InsertOnly = map[string]bool{}
+			}
+			for _, f := range strings.Fields(strings.ReplaceAll(rest, ",", " ")) {
+				curT.InsertOnly[f] = true
 			}
 		case "setup":
 			if curT == nil {
